@@ -45,13 +45,15 @@ DTYPES = list(DT)
 FLOATS = ["float16", "float32", "float64"]
 SHAPES = [(), (1,), (3,), (0,), (2, 3), (0, 2), (1, 1), (2, 1, 2), (2, 0, 3)]
 IOS = ["path-npz", "path-noext", "pathlib-npz", "pathlib-noext", "bytesio", "openfile", "tempfile", "bytesio-offset", "tempfile-offset",
-       "openfile-noext", "openfile-noext-pathlib"]
+       "openfile-noext", "openfile-noext-pathlib", "namedtempfile", "duck-file"]
 IO_CLASS = {"path-npz": "path", "path-noext": "path", "pathlib-npz": "path", "pathlib-noext": "path",
             "bytesio": "fileobj", "openfile": "fileobj", "tempfile": "fileobj",
             # the archive does not start at offset 0 of the file object (a caller's own header precedes it)
             "bytesio-offset": "fileobj", "tempfile-offset": "fileobj",
             # written through a file object opened on a name without ".npz", read back through that very name
-            "openfile-noext": "fileobj", "openfile-noext-pathlib": "fileobj"}
+            "openfile-noext": "fileobj", "openfile-noext-pathlib": "fileobj",
+            # file objects that are not io.IOBase instances
+            "namedtempfile": "fileobj", "duck-file": "fileobj"}
 GRADS = ["none", "scalar", "nonscalar", "seed", "seed-bcast", "nulled", "scalar-reshaped-untracked"]
 LIVE = ["consumer", "intermediate", "terminal-kept", "reused"]
 VIEW_IDX = ["1:", "::-1", "...", "0", "reshape", "T", ":0", "0d"]
@@ -233,6 +235,37 @@ def build(desc):
 # ------------------------------------------------------------------------------------------ io
 
 
+class _DuckFile:
+    """a binary file object by duck typing only (not an io.IOBase)"""
+
+    def __init__(self, raw):
+        self._raw = raw
+
+    def write(self, b):
+        return self._raw.write(b)
+
+    def read(self, n=-1):
+        return self._raw.read(n)
+
+    def readinto(self, b):
+        return self._raw.readinto(b)
+
+    def seek(self, *a):
+        return self._raw.seek(*a)
+
+    def tell(self):
+        return self._raw.tell()
+
+    def seekable(self):
+        return True
+
+    def flush(self):
+        return self._raw.flush()
+
+    def close(self):
+        return self._raw.close()
+
+
 def do_save_load(t, iomode, tag):
     """-> (loaded tensor, sorted archive keys).  Everything lives in the check's own temp dir."""
     d = _TMP["dir"] or tempfile.gettempdir()
@@ -255,6 +288,21 @@ def do_save_load(t, iomode, tag):
                 f.seek(len(header))
                 keys = sorted(np.load(f).files)
                 f.seek(len(header))
+                return mg.load(f), keys
+            finally:
+                f.close()
+        if iomode in ("namedtempfile", "duck-file"):
+            # file objects that are not io.IOBase instances: the wrapper tempfile.NamedTemporaryFile returns, and a
+            # user class that delegates write/read/seek/tell (np.savez / np.load accept both)
+            if iomode == "namedtempfile":
+                f = tempfile.NamedTemporaryFile(dir=d)
+            else:
+                f = _DuckFile(_io.BytesIO())
+            try:
+                mg.save(f, t)
+                f.seek(0)
+                keys = sorted(np.load(f).files)
+                f.seek(0)
                 return mg.load(f), keys
             finally:
                 f.close()
